@@ -42,7 +42,7 @@ def run(idx: Index, rep: Report, tier: str):
     C12.check_reordering(idx, rep)
     check_single_reordering(idx, rep)
     check_combinatorial_basis(idx, rep)
-    check_hcb_table(idx, rep)
+    check_hcb_table(idx, rep, tier)
     check_combinatorial_spectrum(idx, rep, tier)
     check_hcb_chain(idx, rep, tier)
     check_register_size_reaches_encoder(idx, rep)
@@ -381,49 +381,46 @@ class _BosOp:
     __iadd__ = __add__
 
 
-def check_hcb_table(idx: Index, rep: Report):
-    """hard_core_boson_operator folded on symbolic integral tensors h (one-body) and T (two-body, as get_coeffs returns it; the code doubles it).
-    Reference, derived for H = c + sum h_pq a+_ps a_qs + sum T_pqrs a+_ps a+_qt a_rt a_ss restricted to the paired (seniority-zero) space,
-    with b+_i = a+_ia a+_ib and no symmetry assumed beyond hermiticity:
-        b+_i b_i            : 2 h_ii + 2 T_iiii
-        b+_i b_j   (i != j) : 2 T_iijj                       (pair hopping)
-        b+_i b_i b+_j b_j   : 2 (2 T_ijji) - 2 T_ijij         (direct minus same-spin exchange; T_iijj is a different integral unless the
-                                                              orbitals are real - the 8-fold symmetry must not be assumed)"""
+def check_hcb_table(idx: Index, rep: Report, tier: str = "quick"):
+    """hard_core_boson_operator, term by term.  For every number- and spin-conserving ladder-operator product t of the two shapes the coefficient extraction
+    reads (a+ a, a+ a+ a a) on two spatial orbitals (three in the thorough tier), the Hermitian operator t + t^ is encoded by folding the library's own
+    chain (get_coeffs, hard_core_boson_operator), and the boson operator's matrix is compared with the exact matrix of t + t^ between the paired
+    (seniority-zero) determinants, built from the checker's own ladder-operator matrices.  By linearity this is the whole table of the encoding: pair
+    energy, pair hopping, pair-pair coupling, and zero for everything that breaks a pair - with no symmetry assumed beyond hermiticity."""
     rule = "K9.hcb-table"
+    import numpy as np
     from ..consteval import Raised, Undecidable
-    from ..rules.circuitsem import make_folder
     f = idx.function(f"{HCB}::hard_core_boson_operator")
     _validate_hcb_reference()
-    for n_mos in (2, 3):
-        c = sp.Symbol("c")
-
-        class _Ferm:
-            _sa_model = True
-
-            def get_coeffs(self, spatial=False):
-                if not spatial:
-                    raise Undecidable("get_coeffs(spatial=False)")
-                return c, _SymTensor("h", 2, n_mos), _SymTensor("T", 4, n_mos)
-        fo = make_folder(idx, HCB, ctors={"BosonOperator": lambda a, k: _BosOp(*a, **k)})
-        try:
-            got = fo.run_function(f.node, {"ferm_op": _Ferm()})
-        except (Undecidable, Raised) as e:
-            raise AnalysisError(f"hard_core_boson_operator not foldable: {e}")
-        h = lambda i, j: sp.Symbol(f"h_{i}{j}")
-        T = lambda i, j, k, l: sp.Symbol(f"T_{i}{j}{k}{l}")
-        want = {(): c}
-        for i in range(n_mos):
-            want[((i, 1), (i, 0))] = 2 * h(i, i) + 2 * T(i, i, i, i)
-            for j in range(n_mos):
-                if i != j:
-                    want[((i, 1), (j, 0))] = 2 * T(i, i, j, j)
-                    want[((i, 1), (i, 0), (j, 1), (j, 0))] = 4 * T(i, j, j, i) - 2 * T(i, j, i, j)
-        gt = got.terms if isinstance(got, _BosOp) else {}
-        bad = [k for k in set(gt) | set(want) if sp.simplify(sp.nsimplify(gt.get(k, 0)) - want.get(k, 0)) != 0]
-        rep.decide(not bad, rule, f, f.node, text=f"paired-space Hamiltonian on {n_mos} orbitals: {len(want)} boson terms",
-                   what="the boson operator is the fermionic Hamiltonian restricted to the paired space for any Hermitian number- and spin-conserving input "
-                        "(pair energy 2h+g_iiii, pair hopping g_iijj, pair-pair coupling 2 g_ijji - g_ijij), without assuming real-orbital symmetry",
-                   reason=f"term {bad[0] if bad else ''}: coefficient {gt.get(bad[0], 0) if bad else ''}, expected {want.get(bad[0], 0) if bad else ''}")
+    sizes = (2, 3) if tier == "thorough" else (2,)
+    for n_mos in sizes:
+        N = 2 * n_mos
+        shapes = [((p_, 1), (q_, 0)) for p_, q_ in itertools.product(range(N), repeat=2) if p_ % 2 == q_ % 2]
+        shapes += [((p_, 1), (q_, 1), (r_, 0), (s_, 0)) for p_, q_, r_, s_ in itertools.product(range(N), repeat=4)
+                   if p_ != q_ and r_ != s_ and p_ % 2 + q_ % 2 == r_ % 2 + s_ % 2]
+        if n_mos == 3:      # the two-orbital terms are done above: keep the ones that touch all three orbitals
+            shapes = [t for t in shapes if len({i // 2 for i, _ in t}) == 3]
+        bad, done = [], 0
+        for t in shapes:
+            adj = tuple((i, 1 - d) for i, d in reversed(t))
+            terms = {t: 1.0}
+            terms[adj] = terms.get(adj, 0.) + 1.0
+            try:
+                bos = hcb_encode(idx, terms)
+            except Undecidable as e:
+                raise AnalysisError(f"hard_core_boson_operator not foldable on {t}: {e}")
+            except Raised as e:
+                bad.append((t, f"raises {e.exc_type}"))
+                continue
+            done += 1
+            d = float(np.max(np.abs(boson_matrix(bos, n_mos) - paired_block(terms, n_mos))))
+            if d > 1e-9:
+                bad.append((t, f"largest deviation of a matrix element {d:.3g}"))
+        rep.floor(f"hard-core-boson table entries folded on {n_mos} orbitals", done + len(bad), 80 if n_mos == 2 else 100)
+        rep.decide(not bad, rule, f, f.node, text=f"paired-space image of every number- and spin-conserving term on {n_mos} orbitals ({len(shapes)} Hermitian operators t + t^)",
+                   what="the boson operator is the fermionic operator restricted to the paired space for any Hermitian number- and spin-conserving input "
+                        "(pair energy, pair hopping, pair-pair coupling; zero for whatever breaks a pair), without assuming real-orbital or index-order symmetry",
+                   reason=f"{len(bad)} operators deviate; first: t = {bad[0][0] if bad else ''}: {bad[0][1] if bad else ''}")
 
 
 def _validate_hcb_reference():
@@ -604,3 +601,24 @@ def check_hcb_chain(idx: Index, rep: Report, tier: str):
                    what="the hard-core-boson operator is the fermionic Hamiltonian restricted to the determinants with every orbital empty or doubly occupied",
                    reason=f"largest deviation of a matrix element {d:.3g}")
     rep.floor("hard-core-boson chains folded", n, 3)
+    # the same operator written in normal order (creation operators first, decreasing indices) - an operator, not a spelling, is what is encoded
+    from ..rules import ofmodel as om
+    bad = []
+    for n_mos, seed in ((2, 11), (3, 13)):
+        terms = _restricted_hamiltonian(n_mos, seed)
+        op = om.OrdFermionOp()
+        op.terms = dict(terms)
+        no_terms = dict(om.normal_ordered(op).terms)
+        try:
+            bos = hcb_encode(idx, no_terms)
+        except Undecidable as e:
+            raise AnalysisError(f"hard-core-boson chain not foldable on a normal-ordered operator: {e}")
+        except Raised as e:
+            bad.append(f"{n_mos} orbitals: raises {e.exc_type}")
+            continue
+        d = float(np.max(np.abs(boson_matrix(bos, n_mos) - paired_block(terms, n_mos))))
+        if d >= 1e-9:
+            bad.append(f"{n_mos} orbitals: largest deviation of a matrix element {d:.3g}")
+    rep.decide(not bad, rule, f, f.node, text="the same spin-restricted Hamiltonians, written in normal order",
+               what="the hard-core-boson operator depends on the fermionic operator, not on the order in which its ladder operators are written",
+               reason="; ".join(bad) + " (the coefficient extraction only reads the a+ a and a+ a+ a a patterns at the index positions an un-reordered molecular Hamiltonian uses)")
